@@ -27,10 +27,12 @@ def run(s):
     if s.tier == 'quick':
         K.item_grid(s, 4, pretties=(False,), kmax=3, full=False)
         K.item_grid(s, 4, pretties=(True,), kmax=2, full=False, inters=(False,), item_names=K.HOSTILE_NAMES)
+        K.item_grid(s, 4, pretties=(True,), kmax=2, full=False, inters=(False,), item_names=K.HOSTILE_NAMES_B)
         K.fuzz(s, 240, K.kind_weights(story=0.15, item=1.0, other=0.15), steps=(5, 25), direct=0.15)
     else:
         K.item_grid(s, 5, kmax=3, full=True)
         K.item_grid(s, 6, kmax=2, full=False, item_names=K.HOSTILE_NAMES)
+        K.item_grid(s, 4, kmax=2, full=False, item_names=K.HOSTILE_NAMES_B)
         K.fuzz(s, 15000, K.kind_weights(story=0.2, item=1.0, other=0.15), steps=(5, 40), direct=0.15)
 
 
